@@ -854,35 +854,46 @@ func (c *Compiler) compileUTF84ByteRange(lo, hi rune, endState StateID) []StateI
 	}
 
 	// UTF-8 4-byte encoding: 11110xxx 10xxxxxx 10xxxxxx 10xxxxxx
-	// For simplicity, use a conservative approach: match any valid 4-byte sequence in range
-	// This creates more states but is correct
-
-	loLead := byte(0xF0 | (lo >> 18))
-	hiLead := byte(0xF0 | (hi >> 18))
-
-	for leadVal := loLead; leadVal <= hiLead; leadVal++ {
-		// Determine cont1 range for this lead byte
-		var c1Lo, c1Hi byte
-		if leadVal == 0xF0 {
-			c1Lo = 0x90 // F0 requires cont1 >= 0x90
-		} else {
-			c1Lo = 0x80
-		}
-		if leadVal == 0xF4 {
-			c1Hi = 0x8F // F4 requires cont1 <= 0x8F
-		} else {
-			c1Hi = 0xBF
-		}
-
-		// Build states for each lead byte value
-		cont3 := c.builder.AddByteRange(0x80, 0xBF, endState)
-		cont2 := c.builder.AddByteRange(0x80, 0xBF, cont3)
-		cont1 := c.builder.AddByteRange(c1Lo, c1Hi, cont2)
-		lead := c.builder.AddByteRange(leadVal, leadVal, cont1)
+	// The range is cut into pieces whose encodings differ only in a contiguous
+	// range per byte position; one chain of four byte ranges accepts exactly
+	// the code points of a piece. (Accepting every code point that shares the
+	// lead byte made [\x{1000c}-\x{1000d}] - and \pL, \pN, \p{Greek} - match
+	// all of U+10000-U+3FFFF.)
+	var pieces [][4][2]byte
+	splitUTF84ByteRange(lo, hi, &pieces)
+	for _, p := range pieces {
+		cont3 := c.builder.AddByteRange(p[3][0], p[3][1], endState)
+		cont2 := c.builder.AddByteRange(p[2][0], p[2][1], cont3)
+		cont1 := c.builder.AddByteRange(p[1][0], p[1][1], cont2)
+		lead := c.builder.AddByteRange(p[0][0], p[0][1], cont1)
 		starts = append(starts, lead)
 	}
 
 	return starts
+}
+
+// splitUTF84ByteRange appends to out the byte-range sequences that together
+// accept exactly the 4-byte code points lo..hi (0x10000 <= lo <= hi <= 0x10FFFF).
+func splitUTF84ByteRange(lo, hi rune, out *[][4][2]byte) {
+	for i := uint(1); i < 4; i++ {
+		m := rune(1)<<(6*i) - 1
+		if lo&^m != hi&^m {
+			if lo&m != 0 {
+				splitUTF84ByteRange(lo, lo|m, out)
+				splitUTF84ByteRange((lo|m)+1, hi, out)
+				return
+			}
+			if hi&m != m {
+				splitUTF84ByteRange(lo, (hi&^m)-1, out)
+				splitUTF84ByteRange(hi&^m, hi, out)
+				return
+			}
+		}
+	}
+	var a, b [4]byte
+	encodeRune(a[:], lo)
+	encodeRune(b[:], hi)
+	*out = append(*out, [4][2]byte{{a[0], b[0]}, {a[1], b[1]}, {a[2], b[2]}, {a[3], b[3]}})
 }
 
 // buildUTF8NonASCIIBranches builds NFA branches for all valid UTF-8 multi-byte sequences.
